@@ -128,6 +128,52 @@ func (x *Exec) mergeStates(anc *pcNode, states []*State) *State {
 		}
 		m.heap[n] = c
 	}
+	// guarded-state snapshots: a path that never took the lock has the entry value
+	onames := map[string]bool{}
+	for _, s := range live {
+		for n := range s.oldHeap {
+			onames[n] = true
+		}
+	}
+	if len(onames) > 0 {
+		m.oldHeap = map[string]string{}
+		for _, n := range sortedStrings(onames) {
+			terms := make([]string, len(live))
+			same := true
+			for i, s := range live {
+				t, has := s.oldHeap[n]
+				if !has {
+					t = n + "@0"
+					if top := x.eng.curTop; top != nil && top.entry != nil {
+						if t2, ok := top.entry.heap[n]; ok {
+							t = t2
+						}
+					}
+					if _, declared := x.eng.decl[t]; !declared {
+						for _, s2 := range live {
+							if t2, ok := s2.oldHeap[n]; ok {
+								x.eng.declare(t, x.eng.decl[t2])
+								break
+							}
+						}
+					}
+				}
+				terms[i] = t
+				if t != terms[0] {
+					same = false
+				}
+			}
+			if same {
+				m.oldHeap[n] = terms[0]
+				continue
+			}
+			c := x.eng.fresh(n+"@om", x.eng.decl[terms[0]])
+			for i := range live {
+				m.pc = m.pc.push(mkImp(conds[i], mkEq(c, terms[i])))
+			}
+			m.oldHeap[n] = c
+		}
+	}
 	for k := range m.ctxDone {
 		for _, s := range live {
 			if !s.ctxDone[k] {
